@@ -1,2 +1,90 @@
-(* C03 - stage 1: theorems about the ideal object (placeholder, filled below). *)
-From LV Require Import Cont.ContSpec.
+(* C03 - every map implementation is the same finite dictionary.
+   STAGE 1: theorems about the ideal object (Cont/ContSpec.v: map_step over a strictly ascending
+   association list of key/value texts; the map holds copies, so the caller-object operations
+   mutk/mutv/delk/delv do not touch it), proved for ALL histories.  The correspondence check ties
+   the three real classes to this object; stage 2 adds the per-class refinement theorems.
+   This file holds only statements, each closed by `exact`, and Print Assumptions. *)
+From LV Require Import Cont.ContSpec Cont.ContKey Cont.MapProofs.
+From Coq Require Import Sorting.Sorted.
+Local Open Scope Z_scope.
+
+(* one pair per key, keys strictly ascending, after every history *)
+Theorem C03_keys_strictly_ascending : forall ops, StronglySorted key_lt (map fst (final map_step [] ops)).
+Proof. exact map_sorted_all. Qed.
+Print Assumptions C03_keys_strictly_ascending.
+
+Theorem C03_one_pair_per_key : forall ops, NoDup (map fst (final map_step [] ops)).
+Proof. exact map_keys_nodup. Qed.
+Print Assumptions C03_one_pair_per_key.
+
+(* a key maps to the value most recently set for it and not removed since *)
+Theorem C03_lookup_is_the_dictionary : forall ops k, m_get (final map_step [] ops) k = dict_of ops k.
+Proof. exact map_lookup_dict. Qed.
+Print Assumptions C03_lookup_is_the_dictionary.
+
+(* every key-addressed result in every history is the ideal dictionary's: get, has_key, `set
+   reports whether it replaced`, `remove hands back the pair stored for the key` *)
+Theorem C03_results_are_the_dictionarys : forall ops i op o,
+  nth_error ops i = Some op -> dict_out (dict_of (firstn i ops)) op = Some o ->
+  nth_error (outs map_step [] ops) i = Some o.
+Proof. exact map_outs_dict. Qed.
+Print Assumptions C03_results_are_the_dictionarys.
+
+Theorem C03_get_after_set : forall m k v k',
+  m_get (fst (m_set k v m)) k' = if key_eqb k' k then Some v else m_get m k'.
+Proof. exact m_set_get. Qed.
+Print Assumptions C03_get_after_set.
+
+Theorem C03_set_reports_replacement : forall m k v, msorted m -> snd (m_set k v m) = is_some (m_get m k).
+Proof. exact m_set_reports. Qed.
+Print Assumptions C03_set_reports_replacement.
+
+Theorem C03_get_after_remove : forall m k k', msorted m ->
+  m_get (fst (m_remove k m)) k' = if key_eqb k' k then None else m_get m k'.
+Proof. exact m_remove_get. Qed.
+Print Assumptions C03_get_after_remove.
+
+(* remove hands back the pair exactly once *)
+Theorem C03_remove_hands_back_the_pair : forall m k,
+  snd (m_remove k m) = match m_get m k with Some v => Some (k, v) | None => None end.
+Proof. exact m_remove_result. Qed.
+Print Assumptions C03_remove_hands_back_the_pair.
+
+Theorem C03_remove_only_once : forall m k, msorted m ->
+  snd (m_remove k (fst (m_remove k m))) = None /\
+  fst (m_remove k (fst (m_remove k m))) = fst (m_remove k m).
+Proof. exact m_remove_twice. Qed.
+Print Assumptions C03_remove_only_once.
+
+Theorem C03_has_value_iff : forall m v, m_has_value m v = true <-> exists k, In (k, v) m.
+Proof. exact m_has_value_iff. Qed.
+Print Assumptions C03_has_value_iff.
+
+(* keys, values, pairs, iteration and count describe one ascending sequence *)
+Theorem C03_ascending_views : forall ops, let m := final map_step [] ops in
+  StronglySorted key_lt (map fst m) /\
+  snd (map_step m MGetKeys) = OTexts (map fst m) /\
+  snd (map_step m MGetValues) = OTexts (map snd m) /\
+  snd (map_step m MGetPairs) = OPairs m /\
+  snd (map_step m MIterate) = OPairs m /\
+  snd (map_step m MCount) = OInt (Z.of_nat (length (map fst m))).
+Proof. exact map_order. Qed.
+Print Assumptions C03_ascending_views.
+
+(* the map holds its own copies: whatever the caller does to its key/value objects is irrelevant *)
+Theorem C03_caller_objects_irrelevant : forall ops m,
+  final map_step m (filter (fun op => negb (is_caller_op op)) ops) = final map_step m ops.
+Proof. exact map_caller_ops_irrelevant. Qed.
+Print Assumptions C03_caller_objects_irrelevant.
+
+(* non-vacuity *)
+Definition ka : key := [97]. Definition kb : key := [98]. Definition kx : key := [120]. Definition ky : key := [121].
+Example C03_ex_run :
+  map_run [] [MSet kb kx; MSet ka ky; MSet kb ky; MMutK ka; MDelV; MGet kb; MRemove ka; MRemove ka; MGetPairs] =
+  ([(kb, ky)],
+   [OBool false; OBool false; OBool true; OUnit; OUnit; OText (Some ky); OPair (Some (ka, ky)); OPair None;
+    OPairs [(kb, ky)]]).
+Proof. vm_compute. reflexivity. Qed.
+Example C03_ex_dict : dict_of [MSet kb kx; MSet ka ky; MSet kb ky; MRemove ka] kb = Some ky /\
+                      dict_of [MSet kb kx; MSet ka ky; MSet kb ky; MRemove ka] ka = None.
+Proof. vm_compute. auto. Qed.
